@@ -274,7 +274,10 @@ Definition orders (pid : bytes) (d : dir) : list (list name) :=
   let cks := filter (is_ckpt pid) (dir_names d) in
   fold_right (fun k acc =>
                 let g := filter (fun n => ts_key pid n =? k) cks in
-                flat_map (fun p => map (app p) acc) (perms g))
+                (* larger groups of equal timestamps do not occur in generated cases; they are
+                   tried in listing order and reversed only (keeps the evaluation bounded) *)
+                let ps := if Nat.leb (List.length g) 5 then perms g else [g; rev g] in
+                flat_map (fun p => map (app p) acc) ps)
              [[]] (dedup_z (map (ts_key pid) cks)).
 
 Definition opt_bytes_eqb (a b : option bytes) : bool :=
